@@ -17,12 +17,33 @@ func init() {
 			return err
 		}
 		rng := rand.New(rand.NewSource(a.seed))
+		// the caller's accessor-and-edit steps are drawn from a stream of their own (the scenarios drawn from rng stay
+		// what they were)
+		prng := rand.New(rand.NewSource(a.seed ^ 0x5eed0acce55))
 		for i := 0; i < a.n; i++ {
 			sc := randomScenario(rng)
+			if sc.Ev.Type == "pl" && prng.Float64() < 0.4 {
+				// read-modify-write by the caller: a content is read through a public accessor and the value obtained is
+				// edited, before Allowed() is asked (order "cec": also asked once before)
+				sc.Pre = &absPre{
+					Route: pick(prng, "state.PowerLevels", "state.PowerLevels", "state.FromEvent", "state.FromAuthEvents", "event.PowerLevels", "event.FromEvent"),
+					Edit:  pick(prng, "to_other", "to_other", "wipe", "lift"),
+					Order: pick(prng, "ec", "cec"),
+				}
+			}
+			var got0 *bool
+			did := ""
 			r := safely(i, func() Result {
 				c, err := concretise(sc, int(a.seed)+i)
 				if err != nil {
 					panic(fmt.Sprintf("concretise: %v", err))
+				}
+				if sc.hasPre() {
+					if sc.Pre.Order == "cec" {
+						g, _ := runAllowed(c)
+						got0 = &g
+					}
+					did = callerEdit(sc, c)
 				}
 				got, _ := runAllowed(c)
 				return Result{OK: true, Got: got}
@@ -35,7 +56,15 @@ func init() {
 				fmt.Println(string(b))
 				continue
 			}
-			tw.emit(map[string]interface{}{"ver": sc.Ver, "st": sc.St, "ev": sc.Ev, "got": r.Got, "variant": int(a.seed) + i})
+			if got0 != nil {
+				// the check before the caller's edit is a call of its own
+				tw.emit(map[string]interface{}{"ver": sc.Ver, "st": sc.St, "ev": sc.Ev, "got": *got0, "variant": int(a.seed) + i})
+			}
+			line := map[string]interface{}{"ver": sc.Ver, "st": sc.St, "ev": sc.Ev, "got": r.Got, "variant": int(a.seed) + i}
+			if did != "" {
+				line["pre"] = sc.Pre
+			}
+			tw.emit(line)
 		}
 		return tw.close()
 	})
